@@ -80,7 +80,10 @@ def hot(
             nonlocal is_stopped
 
             with lock:
-                for observer in observers:
+                # iterate over a snapshot: an observer that unsubscribes from
+                # inside its callback must not make its neighbour miss the
+                # notification
+                for observer in observers.copy():
                     notification.accept(observer)
 
                 if notification.kind in ("C", "E"):
